@@ -319,7 +319,10 @@ def main(argv=None):
         ev['coverage']['rule'] = native.get('rule', '')
     if checker_errors:
         ev['coverage']['checker_errors'] = checker_errors
-    json.dump(ev, open(os.path.join(ROOT, 'evidence', prop + '.json'), 'w'), indent=1, default=str)
+    # PYVC_EVIDENCE_DIR: development runs on a deliberately changed tree (tools/run_all_mutants.py) must not overwrite the evidence
+    evdir = os.environ.get('PYVC_EVIDENCE_DIR') or os.path.join(ROOT, 'evidence')
+    os.makedirs(evdir, exist_ok=True)
+    json.dump(ev, open(os.path.join(evdir, prop + '.json'), 'w'), indent=1, default=str)
 
     for ln in lines:
         print(ln)
